@@ -261,7 +261,11 @@ func runC05(c *core.Ctx) {
 			if r.Intn(4) > 0 {
 				k.Version = 1
 			}
-			if _, err := k.Marshal(); err == nil || r.Intn(5) == 0 {
+			var err error
+			if p, _ := core.Guard(func() { _, err = k.Marshal() }); p {
+				continue // a crash of the encoder is reported where the encoder is under test (emitRound)
+			}
+			if err == nil || r.Intn(5) == 0 {
 				break
 			}
 		}
